@@ -244,6 +244,10 @@ class CGWorld(World):
             if np.linalg.eigvalsh(Pd)[0] <= 0:
                 raise ValueError("plan preconditioner not PD")
         ledger = Ledger()
+        if random.Random("cg-readonly:%d" % plan["seed"]).random() < 0.15:
+            # buggify: the caller's right-hand side is read-only
+            b.flags.writeable = False
+            stats["buggify.readonly_rhs"] += 1
         ledger.own("b", b)
 
         # ---- build A callback (real sigpy Linops where the plan says so)
